@@ -9,7 +9,8 @@ PROP = {
             "with the minimal header and every long form of 1..9 and 127 octets, indefinite, header cut at every position, content "
             "truncated, trailing bytes, all 256 second octets, lengths that do not fit (84 7f ff ff ff, 85.., 88.., ff); "
             "every sequence of 0..4 extensions over 10 kinds (good/bad role values, 6 near-miss OIDs, unrelated OIDs); "
-            "random role strings up to 300 bytes with random mutations and neighbours; plain TCP sessions through the real server path.",
+            "random role strings up to 300 bytes with random mutations and neighbours; plain TCP sessions through the real server path."
+            " Scenario tlschainrole (real TLS handshakes): clients present leaf + issuer where the issuer (intermediate or root) carries a well-formed role and the leaf carries none / a malformed one in eight ways; the role must be the leaf's.",
     "assumptions": [
         "lengths are below 2^31 (Go's encoding/asn1 refuses larger ones; a TLS handshake message cannot carry one)",
         "extension values are octet strings (each element below 256)",
